@@ -131,6 +131,19 @@ def run(ctx):
             cols_ = rng.sample(range(p_), rng.randint(1, p_))
             Xw[a_:a_ + rng.randint(8, 40), cols_] += rng.choice([3.0, -4.0, 6.0])
         Xw[rng.randrange(n_), rng.sample(range(p_), 2)] += 12.0
+        if it % 2 == 0:
+            # a LONG anomaly (100 rows) in column 0 whose second affected column carries its evidence in the first and last two rows only
+            a2 = rng.randint(20, n_ - 140)
+            Xw[a2:a2 + 100] = np.asarray([[rng.gauss(0, 0.3) for _ in range(p_)] for _ in range(100)])
+            Xw[a2:a2 + 100, 0] += 4.0
+            for t_ in (a2, a2 + 1, a2 + 98, a2 + 99):
+                Xw[t_, 1] += 7.5
+        if it == 1:
+            # more than 127 anomalies in one series: a spike every 20 rows of a 2900-row series
+            n_ = 2900
+            Xw = np.asarray([[rng.gauss(0, 1) for _ in range(p_)] for _ in range(n_)])
+            for t_ in range(10, n_, 20):
+                Xw[t_, rng.randrange(p_)] += 14.0
         dm = _MVCAPA().fit(Xw)
         ym = dm.predict(Xw)
         tm = dm.transform(Xw).to_numpy()
